@@ -41,12 +41,20 @@ def pEat (c : Char) : List Char → Option (List Char)
 
 def setH (l : Nat) (n : Int) : H := .fby (.emit (.wset l n)) (.set l n)
 
-/-- `m.k` -/
+/-- `m.k` (keys are decimal numbers below 100: `10` sorts after `2` as a key and before it as text) -/
 def pMapKey (cs : List Char) : Option (Nat × Nat × List Char) := do
   let (m, r) ← pMLane cs
   let r ← pEat '.' r
-  let (k, r) ← pDigit r
-  pure (m, k, r)
+  let (k, r) ← pNat r
+  if k < 100 then pure (m, k, r) else none
+
+/-- The closure of a `transform_entry`: `i<int>` | `d` | `b<int>` | `f<int>`. -/
+def pXf : List Char → Option (Xf × List Char)
+  | 'i' :: r => (pInt r).map fun x => (.inc x.1, x.2)
+  | 'd' :: r => some (.del, r)
+  | 'b' :: r => (pInt r).map fun x => (.bump x.1, x.2)
+  | 'f' :: r => (pInt r).map fun x => (.flip x.1, x.2)
+  | _ => none
 
 mutual
 def pH : Nat → List Char → Option (H × List Char)
@@ -81,6 +89,13 @@ def pH : Nat → List Char → Option (H × List Char)
     else if c = 'q' then do
       let (m, k, r) ← pMapKey cs
       pure (.mgetLog m k, r)
+    else if c = 't' then do
+      let (m, k, r) ← pMapKey cs
+      let (x, r) ← pXf r
+      pure (.fby (.emit (.wxf m k x)) (.mxf m k x), r)
+    else if c = 'y' then do
+      let (m, k, r) ← pMapKey cs
+      pure (.mwithLog m k, r)
     else if c = 'F' then do
       let r ← pEat '(' cs
       let (a, r) ← pH f r
@@ -158,14 +173,22 @@ def renderMap (l : List (Nat × Int)) : String :=
 def Top.tag : Top → String
   | .start => "T" | .stop => "P" | .cmd => "C" | .susp => "Z"
 
+def Xf.render : Xf → String
+  | .inc d => s!"i{d}"
+  | .del => "d"
+  | .bump d => s!"b{d}"
+  | .flip n => s!"f{n}"
+
 def Ev.render : Ev → String
   | .eff i => s!"e{i}"
   | .got l v => s!"g{l}:{v}"
   | .gotE m k v => s!"q{m}.{k}:{optInt v}"
+  | .gotW m k v => s!"y{m}.{k}:{optInt v}"
   | .wset l n => s!"ws{l}={n}"
   | .wupd m k n => s!"wu{m}.{k}={n}"
   | .wrem m k => s!"wr{m}.{k}"
   | .wclr m => s!"wx{m}"
+  | .wxf m k f => s!"wt{m}.{k}{f.render}"
   | .wfail => "w!"
   | .wstop => "w$"
   | .wsusp => "wz"
@@ -221,11 +244,11 @@ def laneRequest (parts : List String) : Option H :=
     let m ← m.toNat?
     let k ← k.toNat?
     let n ← parseInt n
-    if m < nm ∧ k < 10 then some (.mupd m k n) else none
+    if m < nm ∧ k < 100 then some (.mupd m k n) else none
   | ["mrem", m, k] => do
     let m ← m.toNat?
     let k ← k.toNat?
-    if m < nm ∧ k < 10 then some (.mrem m k) else none
+    if m < nm ∧ k < 100 then some (.mrem m k) else none
   | ["mclr", m] => do
     let m ← m.toNat?
     if m < nm then some (.mclr m) else none
